@@ -143,6 +143,15 @@ fn deviation(j: Option<&J>, clause: &str, detail: &str) -> Option<&'static str> 
         "ill-formed-schema-accepted" | "operation-on-accepted-schema-panicked" if defined_twice && (detail.contains("is defined twice") || detail.contains("same fullname")) => Some("D-C11-duplicate-full-name-accepted"),
         "ill-formed-schema-accepted" if non_object_field && detail == "record field is not an object" => Some("D-C11-non-object-entries-in-fields-ignored"),
         "ill-formed-schema-accepted" if detail.ends_with("fixed default of the wrong size") => Some("D-C11-fixed-default-of-wrong-size-accepted"),
+        "ill-formed-schema-accepted" if detail.starts_with("default of field") && detail.ends_with("code point above 255") => Some("D-C11-bytes-or-fixed-default-with-code-point-above-255-accepted"),
+        "ill-formed-schema-accepted" if detail.starts_with("default of field") && detail.ends_with("string expected") && any(j, &|o| o.get("default").is_some_and(|d| d.is_array()) && o.get("type").is_some_and(|t| t == "bytes" || t.get("type") == Some(&json!("bytes")))) => Some("D-C11-array-default-for-bytes-accepted"),
+        "ill-formed-schema-accepted"
+            if detail.starts_with("default of field")
+                && detail.ends_with("enum default is not a symbol")
+                && any(j, &|o| o.get("default").is_some_and(|d| d.is_string()) && o.get("type").is_some_and(|t| t.get("type") == Some(&json!("enum")) && t.get("default").is_some())) =>
+        {
+            Some("D-C11-non-symbol-field-default-accepted-when-enum-has-default")
+        }
         "operation-on-accepted-schema-panicked" if explicit_null_ns && detail.starts_with("Value::validate") && detail.contains("same fullname") => Some("D-C11-explicit-null-namespace-type-collides-with-namespaced-one"),
         "well-formed-schema-rejected" if uuid_bytes_default => Some("D-C11-string-default-for-uuid-on-bytes-rejected"),
         _ => None,
@@ -227,11 +236,27 @@ pub fn run(tier: Tier, replay: Option<&J>) -> i32 {
     for (l, j) in su::wide_templates() {
         texts_a.push((l.to_string(), j.to_string()));
     }
+    // (d) every field of every base text with each default of a candidate pool: the reference
+    // judgement decides per text whether the default conforms (both directions are checked)
+    let pool: Vec<J> = vec![json!("not-a-uuid"), json!(12345), json!("ZZ_not_a_symbol"), json!({"zz": 1}), json!([1]), json!(true), J::Null, json!(1.5), json!("\u{100}"), json!(""), json!("67e55044-10b1-426f-9247-bb680e5fe0c8")];
+    for (_, j) in &bases {
+        for n in texts::nodes(j) {
+            if n.kind == texts::NodeKind::Field {
+                for d in &pool {
+                    let mut c = j.clone();
+                    texts::get_mut(&mut c, &n.path)["default"] = d.clone();
+                    texts_a.push(("universe+candidate-default".into(), c.to_string()));
+                }
+            }
+        }
+    }
     // (b) mutations of seed texts
     let mut seeds: Vec<J> = evolve::bases().into_iter().map(|b| b.1).collect();
     seeds.extend(su::naming_templates().into_iter().map(|b| b.1));
     seeds.extend(su::naming_templates_empty_ns().into_iter().map(|b| b.1));
     seeds.push(json!({"type":"record","name":"D","fields":[{"name":"a","type":"int","default":1,"doc":"d","aliases":["b"],"order":"ascending"},{"name":"u","type":["null","string"],"default":null},{"name":"m","type":{"type":"map","values":"long"},"default":{"k":1}},{"name":"e","type":{"type":"enum","name":"E","symbols":["A","B"],"default":"A"},"default":"B"},{"name":"x","type":{"type":"fixed","name":"X","size":2},"default":"ab"},{"name":"dec","type":{"type":"bytes","logicalType":"decimal","precision":4,"scale":2}}]}));
+    // field aliases that coincide with other fields' names, type aliases that coincide with other types
+    seeds.push(json!({"type":"record","name":"Al","fields":[{"name":"x","type":"int"},{"name":"y","type":"int","aliases":["x"]},{"name":"z","type":{"type":"fixed","name":"Fz","size":1,"aliases":["Al"]}}]}));
     let mut texts_b: Vec<(String, String)> = vec![];
     for (si, s) in seeds.iter().enumerate() {
         if tier == Tier::Quick && si % 2 == 1 && si > 24 {
